@@ -9,9 +9,9 @@ import (
 type c07prog struct {
 	name string
 	src  string
-	inf  bool // does not terminate when lim < 0
-	host bool // calls tick()
-	mods bool // imports the stdlib source module enum
+	inf  bool   // does not terminate when lim < 0
+	host bool   // calls tick()
+	mods bool   // imports the stdlib source module enum
 	expr string // expression form for tengo.Eval (same meaning, result instead of globals)
 }
 
@@ -321,9 +321,11 @@ func genC07(r *plan.Rng, tier string) *plan.Plan {
 	if rk := r.Fork(12); rk.Chance(1, 6) {
 		switch cs.Kind {
 		case "cancel":
-			cs.Kind = []string{"cancelCause", "merged"}[rk.Intn(2)]
+			cs.Kind = []string{"cancelCause", "merged", "timeoutCancelled"}[rk.Intn(3)]
 		case "timeout":
 			cs.Kind = "timeoutCause"
+		case "preCancelled", "childOfCancelled":
+			cs.Kind = "cancelledPastDeadline"
 		}
 	}
 	p.Ctxs = []plan.CtxSpec{cs}
